@@ -8,6 +8,7 @@ PROP = "C19"
 LEVEL = "exploration"
 SHARDS = {"quick": 8, "thorough": 16}
 TIMEOUT = {"quick": 900, "thorough": 7200}
+THOROUGH_MULT = 30   # thorough budgets below are multiplied by this (sized for roughly five minutes on 16 cores)
 REQUIRED = {"push_len": 1500, "opcode": 170, "script_roundtrip": 250, "parse_diff": 20000, "varint": 300, "script_history": 300}
 ANCHORS = ['script:Script.parse', 'script:Script.raw_serialize', 'script:Script.serialize', 'helper:read_varint', 'helper:encode_varint']
 RULE = ("every element length 0..521 (exhaustive) x 3 byte patterns; every non-push opcode byte (0x00, 0x4e..0xff, exhaustive); "
